@@ -16,7 +16,9 @@ ObjVals == {
    Obj(<<"n">>, <<St(<<"x">>)>>),                       \* n is not an integer
    Obj(<<"n", "ro">>, <<N(4), St(<<"v">>)>>),             \* read-only property sent
    Obj(<<"n">>, <<N(4)>>),
-   Obj(<<"l", "n">>, <<Arr(<<St(<<"x">>)>>), N(4)>>)      \* an array item is not an integer
+   Obj(<<"l", "n">>, <<Arr(<<St(<<"x">>)>>), N(4)>>),     \* an array item is not an integer
+   Obj(<<"ls", "s">>, <<Arr(<<St(<<"a">>)>>), St(<<"b">>)>>),              \* an array with exactly one element
+   Obj(<<"ls">>, <<Arr(<<St(<<"a">>), St(<<"b">>)>>)>>)
 }
 TextVals == {St(<<"a">>), St(<<"a", "b", "c">>)}
 
@@ -33,11 +35,12 @@ Init ==
    \/ \E req \in BOOLEAN :
         case = [part |-> "select", decl |-> <<Json>>, hdr |-> Json, hdrText |-> Render(Json), required |-> req,
                 bodyKey |-> Json, empty |-> TRUE, declText |-> <<Render(Json)>>]
-   \/ \E fam \in {"json", "form", "multipart"}, sc \in {"S1", "S2"}, v \in ObjVals, xro \in BOOLEAN, enc \in {"default", "lNonExplode"} :
+   \/ \E fam \in {"json", "form", "multipart"}, sc \in {"S1", "S2"}, v \in ObjVals, xro \in BOOLEAN, enc \in {"default", "lNonExplode"},
+         cl \in {"known", "unknown"} :       \* unknown: a body whose length net/http does not know (ContentLength 0, e.g. a pipe)
         /\ (enc = "lNonExplode" => fam = "form")
-        /\ case = [part |-> "decode", family |-> fam, schema |-> sc, v |-> v, excludeRO |-> xro, enc |-> enc]
+        /\ case = [part |-> "decode", family |-> fam, schema |-> sc, v |-> v, excludeRO |-> xro, enc |-> enc, clen |-> cl]
    \/ \E v \in TextVals :
-        case = [part |-> "decode", family |-> "text", schema |-> "text", v |-> v, excludeRO |-> FALSE, enc |-> "default"]
+        case = [part |-> "decode", family |-> "text", schema |-> "text", v |-> v, excludeRO |-> FALSE, enc |-> "default", clen |-> "known"]
 Next == UNCHANGED case
 Spec == Init /\ [][Next]_case
 Emit == CSVWrite("%1$s", <<ToJson(case)>>, "cases.ndjson")
